@@ -245,3 +245,6 @@ func CallT[R any](f func() R, fuel int) (trace []string) {
 
 // E: log an event from template code
 func E(args ...any) { Emit(fmt.Sprint(args...)) }
+
+// TypeName: the dynamic type of a value, for templates that observe which type a yielded constant got
+func TypeName(v any) string { return fmt.Sprintf("%T", v) }
